@@ -242,3 +242,72 @@ def u_registry(c):
     c.prove("swap-back/restores", st == "ok" and reg.fields["currcodes"][p2] is old and reg.fields["currcodes"][p1] is old)
     st, r = run(it, it.getattr(reg, "find_code"), ["nope"], dict(module="m"))
     c.prove("find_code/unknown-KeyError", st == "raise" and isinstance(r, KeyError))
+
+
+@unit("resolve-dotted", ["C13", "C10"], [S + ":dict_resolver"], mode="bounded",
+      bound="dotted names with 0-3 attribute steps; the object reached is a plain function, a bound method (receiver: an instance or a class, "
+            "i.e. a classmethod / metaclass method), a property or an arbitrary object; optional __ptera__ redirection")
+def u_resolve_dotted(c):
+    """Resolving the symbol 'a.b.c' in an environment: exactly the object that Python's attribute access a.b.c gives --
+    a bound method stays the bound method WITH its receiver (whatever kind of object the receiver is: the receiver constraint of
+    obj.meth is built from it by _resolve) -- unless that object redirects through __ptera__; an unknown head or attribute is a
+    SelectorError."""
+    it = Interp(c)
+    func = _fn_obj(c, "meth")
+    kind = c.choose(5, "reached-object")
+    receiver_is_class = False
+    if kind == 0:
+        leaf = func
+    elif kind in (1, 2):
+        receiver_is_class = kind == 2
+        recv = SymObj("receiver", Val.ref(z3.IntVal(c.new_id())), attrs={}, closed=True)
+        recv.attrs["__isinstance__"] = lambda it_, v, cls: cls in ((type, object) if receiver_is_class else (object,))
+        leaf = _bound_method(c, func, recv)
+    elif kind == 3:
+        leaf = SymObj("property", Val.ref(z3.IntVal(c.new_id())), attrs={"fget": func}, closed=True)
+        leaf.attrs["__isinstance__"] = lambda it_, v, cls: cls in (property, object)
+    else:
+        leaf = SymObj("anything", Val.ref(z3.IntVal(c.new_id())), attrs={}, closed=True)
+        leaf.attrs["__isinstance__"] = lambda it_, v, cls: cls is object
+    redirect = None
+    if c.choose(2, "__ptera__"):
+        redirect = _fn_obj(c, "redirected")
+        leaf.attrs["__ptera__"] = redirect
+    steps = c.choose(4, "attribute-steps")
+    cur = leaf
+    names = []
+    for i in range(steps):
+        nm = f"p{steps - i}"
+        holder = SymObj(f"holder{i}", Val.ref(z3.IntVal(c.new_id())), attrs={nm: cur}, closed=True)
+        holder.attrs["__isinstance__"] = lambda it_, v, cls: cls is object
+        names.insert(0, nm)
+        cur = holder
+    env = {"head": cur}
+
+    # inspect, modelled on the kinds of objects built above (the unchanged resolver does not consult it on this branch)
+    def ismethod(it_, a, kw):
+        return isinstance(a[0], SymObj) and "__self__" in a[0].attrs and "__func__" in a[0].attrs
+
+    def isclass(it_, a, kw):
+        return receiver_is_class and isinstance(a[0], SymObj) and a[0].name == "receiver"
+
+    def isfunction(it_, a, kw):
+        return isinstance(a[0], SymObj) and a[0].name in ("meth", "redirected")
+
+    it.module_env(S).vars["inspect"] = SymObj("inspect", Val.ref(z3.IntVal(-10)), attrs={
+        "ismethod": SummaryFn("ismethod", ismethod), "isclass": SummaryFn("isclass", isclass), "isfunction": SummaryFn("isfunction", isfunction)})
+    resolver = it.call(it.get_global(S, "dict_resolver"), [env], {})
+    which = c.choose(3, "query")
+    if which == 0:
+        st, r = run(it, resolver, [".".join(["head"] + names)])
+        want = redirect if redirect is not None else leaf
+        c.prove("resolves-to-exactly-the-object-attribute-access-gives", st == "ok" and r is want,
+                note=f"kind={['function', 'method-of-instance', 'method-of-class-object', 'property', 'object'][kind]} steps={steps}: {st} {r!r}")
+        if st == "ok" and kind in (1, 2) and redirect is None:
+            c.prove("bound-method-keeps-its-receiver", isinstance(r, SymObj) and r.attrs.get("__self__") is leaf.attrs["__self__"])
+    elif which == 1:
+        st, r = run(it, resolver, [".".join(["nohead"] + names)])
+        c.prove("unknown-head/SelectorError", st == "raise" and exc_name(r) == "SelectorError")
+    else:
+        st, r = run(it, resolver, [".".join(["head"] + names + ["missing"])])
+        c.prove("unknown-attribute/SelectorError", st == "raise" and exc_name(r) == "SelectorError")
